@@ -8,7 +8,8 @@
       keywords in another order permutes the pair list and changes nothing.  `Chain.labels_perm_invariant` (PiBas, PiPack)
       instantiates this for whole runs of `setup` on a database and on any permutation of it (different randomness
       allowed).
-  (b) Placement in arrays (PiPtr, Pi2Lev: the recorded `random.sample`; SSE1: ψ_K1 on the node counter; DP17: the chosen
+  (b) PiPtr and Pi2Lev: the occupied array slots are exactly a tail of the recorded `random.sample` (`placement_is_sample`).
+      Placement in arrays (PiPtr, Pi2Lev: the recorded `random.sample`; SSE1: ψ_K1 on the node counter; DP17: the chosen
       bucket and the in-bucket shuffle) is modelled — the correspondence replays the recorded choices and must reproduce
       every array cell — but that two setups choose differently is a statement about `random` / the PRP, outside any
       theorem; the direct oracle samples it on databases with ≥ 12 array-resident blocks.
@@ -19,6 +20,7 @@ import SSEPyVerif.Model.Schemes.PiPtr
 import SSEPyVerif.Model.Schemes.Levels
 import SSEPyVerif.Model.Schemes.Pi2Lev
 import SSEPyVerif.Proofs.Schemes.PiPtrPlace
+import SSEPyVerif.Proofs.Schemes.Pi2LevPlace
 namespace SSEPy.C06
 open SSEPy.Sch
 
@@ -124,6 +126,14 @@ theorem PiPtr.placement_is_random_image (cfg : PiPtrCfg) (lv : Leaves) (hl : Lea
       poss = (sample.reverse.drop (PiPtr.nBlocks cfg pre)).take (PiPtr.kwBlocks cfg ids) :=
   PiPtr.setup_segment cfg lv (fun key iv msg c hiv he => ske_dec_enc lv hl cfg.ske hplain key iv msg c hiv he)
     K pre w ids post t t' edb h sample t0 hs hn
+
+/-- Pi2Lev: after setup the occupied array slots — identifier blocks and second-level pointer blocks of every storage class
+    alike — are exactly a tail of the recorded `random.sample(range(1, |A|), |A| - 1)`: one popped slot per stored block.
+    Keywords, their order, their contents and the key do not enter; a different sample moves the blocks. -/
+theorem Pi2Lev.placement_is_sample (cfg : Pi2LevCfg) (lv : Leaves) (K : Bytes) (db : DB) (t t' : Tape) (edb : PiPtrEDB)
+    (h : Pi2Lev.setup cfg lv K db t = .ok (edb, t')) (sample : List Nat) (t0 : Tape) (hs : takeNats t = .ok (sample, t0)) :
+    ∃ n, n ≤ sample.length ∧ ∀ i, PiPtr.Occupied edb.A i ↔ i ∈ sample.drop (sample.length - n) :=
+  Pi2Lev.setup_slots cfg lv K db t t' edb h sample t0 hs
 
 /-- non-vacuity of "moves": two samples whose tails differ name different slot sets -/
 example : (3 : Nat) ∈ [1, 2, 3].drop (3 - 1) ∧ (3 : Nat) ∉ [3, 1, 2].drop (3 - 1) := by decide
